@@ -30,6 +30,15 @@ def splitmix(seed, count, lo, hi):
     return out
 
 
+NEAR_EQUAL_BASES = [10 ** 6, 2 ** 24, 10 ** 9, 2 ** 40, 10 ** 12]
+
+
+def near_equal_large(seed, n, base):
+    """n values base*m + d with m in 1..4 and d in 0..50: big values that differ by little (relative differences from 1e-5 down to
+    1e-13, all far below 2^53) - where a relative tolerance, a float32 or a rounding in a comparison shows."""
+    return [base * m + d for m, d in zip(splitmix(seed, n, 1, 4), splitmix(seed + 1, n, 0, 50))]
+
+
 @st.composite
 def int_lists(draw, n, lo, hi, spread=3):
     """n ints in lo..hi: `spread` times out of spread+1 evenly spread (seed expansion), otherwise Hypothesis-native
@@ -106,9 +115,7 @@ def values_lists(draw, min_len=1, max_len=10, numbins=None, profiles=None, max_v
         vals = draw(st.permutations(big + small))
     elif profile == "near-equal-large":
         # big values that differ by little (relative differences of 1e-5 .. 1e-11): a tolerance, a float32 or a rounding shows here
-        base = draw(st.sampled_from([10 ** 6, 2 ** 24, 10 ** 9, 2 ** 40]))
-        seed = draw(st.integers(0, 2 ** 40))
-        vals = [base * m + d for m, d in zip(splitmix(seed, min(n, 64), 1, 4), splitmix(seed + 1, min(n, 64), 0, 50))]
+        vals = near_equal_large(draw(st.integers(0, 2 ** 40)), min(n, 64), draw(st.sampled_from(NEAR_EQUAL_BASES)))
     elif profile == "mirrored":
         # every value twice (or four times): the two halves of the natural top-level split are value-identical, so sub-problems repeat
         reps = 2 if n < 8 or draw(st.booleans()) else 4
